@@ -26,6 +26,9 @@ try:
         for l in r.stdout.splitlines():
             if l.startswith("  (") or l.startswith("TOOL-ERROR"):
                 print("   ", l[:300]); break
+        for l in r.stdout.splitlines():
+            if l.startswith("NOTE:"):
+                print("   ", l[:300])
 finally:
     subprocess.run(f"git -C /repo worktree remove --force {wt}", shell=True, capture_output=True)
     shutil.rmtree(wt, ignore_errors=True)
